@@ -287,10 +287,14 @@ pub struct RealShutdown {
     pub burst: usize,
     /// hold a request across the drop and answer it afterwards
     pub hold: bool,
+    /// connections that have each sent one request which nobody has received when the server is
+    /// dropped; they close afterwards
+    #[serde(default)]
+    pub queued_at_drop: usize,
 }
 
 pub fn c20_real_strategy() -> BoxedStrategy<RealShutdown> {
-    (any::<bool>(), 0u8..4, prop_oneof![Just(24usize), 6usize..40], any::<bool>()).prop_map(|(tcp, addr, burst, hold)| RealShutdown { tcp, addr, burst, hold }).boxed()
+    (any::<bool>(), 0u8..4, prop_oneof![Just(24usize), 6usize..40], any::<bool>()).prop_map(|(tcp, addr, burst, hold)| RealShutdown { tcp, addr, burst, hold, queued_at_drop: if burst % 2 == 0 { 14 } else { 0 } }).boxed()
 }
 
 fn thread_count() -> usize {
@@ -434,6 +438,17 @@ pub fn c20_real_test(_w: &mut (), c: &RealShutdown) -> Verdict {
         }
         held_conn = Some(s);
     }
+    let mut queued = vec![];
+    for k in 0..c.queued_at_drop {
+        if let Ok(mut s) = connect(()) {
+            let _ = s.w(format!("GET /queued{} HTTP/1.1\r\nHost: h\r\n\r\n", k).as_bytes());
+            queued.push(s);
+        }
+    }
+    if !queued.is_empty() {
+        // (time for the connections' workers to parse and queue them)
+        std::thread::sleep(Duration::from_millis(300));
+    }
     drop(server);
     // "within a short bounded time new connection attempts are refused": stay quiet for a while
     // (a probing client would itself wake a sleeping accept loop), then the FIRST attempt counts
@@ -466,6 +481,7 @@ pub fn c20_real_test(_w: &mut (), c: &RealShutdown) -> Verdict {
             return fail("C20/real/answer-after-drop-lost", format!("{:?}", vcore::resp::head_preview(&got)));
         }
     }
+    drop(queued);
     // the server is gone and so are its clients: the accept thread ends and the workers, all of
     // them idle now, retire after the idle period — nothing of the server stays behind
     let t2 = Instant::now();
@@ -477,7 +493,7 @@ pub fn c20_real_test(_w: &mut (), c: &RealShutdown) -> Verdict {
     if left > base {
         return fail(format!("C20/real/threads-left-after-drop/{}", if c.tcp { "tcp" } else { "unix" }), format!("threads: {} before the server existed, still {} more than 9 s after it was dropped and its last client had gone", base, left));
     }
-    Verdict::Pass(Good::nontrivial().class(if c.tcp { format!("tcp:{}", bind_to) } else { "unix".to_string() }).class_if(c.hold, "request-held-across-drop").class(format!("peak-threads-above-baseline={}", (peak.saturating_sub(base)).min(64))))
+    Verdict::Pass(Good::nontrivial().class(if c.tcp { format!("tcp:{}", bind_to) } else { "unix".to_string() }).class_if(c.hold, "request-held-across-drop").class_if(c.queued_at_drop > 0, "unreceived-requests-queued-at-the-drop").class(format!("peak-threads-above-baseline={}", (peak.saturating_sub(base)).min(64))))
 }
 
 // ------------------------------------------------------------------------------------------
